@@ -70,9 +70,9 @@ Theorem translate_correct_dec multi ci g s : okb g = true ->
   whole multi true ci (tr g) s = glob_match ci g s.
 Proof. intros H. apply translate_correct. apply (proj1 (okb_ok ci)). exact H. Qed.
 
-Theorem whole_string_dec ci g s : eff_multi = false -> okb g = true ->
+Theorem whole_string_dec ci g s : okb g = true ->
   search eff_multi eff_dotall ci (anchored (tr g)) s = glob_match ci g s.
-Proof. intros Hm H. apply whole_string; [exact Hm | apply (proj1 (okb_ok ci)); exact H]. Qed.
+Proof. intros H. apply whole_string. apply (proj1 (okb_ok ci)). exact H. Qed.
 
 (** non-vacuity: a pattern using every construct but !() satisfies the hypothesis *)
 Definition ex_yes : str := lit "aqzexyyy*".
